@@ -230,6 +230,37 @@ def case_sens(B, cfg):
     if np.shape(ds) == (nb + nt,) and len(red_ref) == nb + nt:
         B.eq_array('sens(reduced)', ds, red_ref)
     B.fact('n_parameters', m.n_parameters() == len(th))
+    # --- per-individual tensor whose rows differ (what a covariate model
+    # hands down): every individual is evaluated at its own parameters
+    if not ps.is_delta(kind) and n_ids >= 2:
+        one = ps.make(kind, n_dim, 1)
+        th_i = [ps.theta_vars(B, kind, n_dim, 1, prefix='thi%d_' % i)
+                for i in range(n_ids)]
+        thm_i = [ps.theta_matrix(t_, kind, n_dim, 1) for t_ in th_i]
+        for i in range(n_ids):
+            ps.assume_support(B, kind, thm_i[i], [obs[i]])
+        try:
+            score, dpsi, dth = m.compute_sensitivities(
+                ps.arr(B, thm_i), ps.arr(B, obs), dlogp_dpsi=Garr,
+                flattened=False)
+        except Exception as e:
+            B.fact('no-exception:sens(tensor with distinct rows)', False,
+                   repr(e))
+            return
+        tot = 0
+        for i in range(n_ids):
+            s_i, dp_i, dt_i = one.compute_sensitivities(
+                ps.arr(B, th_i[i]), ps.arr(B, [obs[i]]),
+                dlogp_dpsi=ps.arr(B, [G[i]]) if up else None)
+            tot = tot + s_i
+            B.eq_array('distinct rows: sens-dpsi of individual %d' % i,
+                       dpsi[i], dp_i[0])
+            if np.shape(dth) == (n_ids, P, n_dim):
+                B.eq_array('distinct rows: sens-dtheta of individual %d' % i,
+                           np.ravel(dth[i]), dt_i)
+        B.eq('distinct rows: score = sum over individuals', score, tot)
+        B.eq('distinct rows: value', m.compute_log_likelihood(
+            ps.arr(B, thm_i), ps.arr(B, obs)), tot)
 
 
 COMPOSITIONS_Q = [
